@@ -1197,6 +1197,13 @@ func (s *st) checkOverflow(p int, full bool, before []wl.Entry, entries []bsmsg.
 	if len(evicted) > 0 {
 		s.overflowed = true
 		s.o.Kind("overflow-evict")
+		// an evicted want is cancelled: its queued task must be gone too (handleOverflow: CancelWant + Remove)
+		pend, _ := s.e.VerifQueueTopics(pid(p))
+		for _, ev := range evicted {
+			if containsCid(pend, ev.Cid) {
+				s.o.Fail("evicted-want-still-queued", "p%d: want %d was evicted by the want-list overflow but its task is still queued (it will be served)", p, s.idx[ev.Cid])
+			}
+		}
 	}
 	if len(rejected) > 0 {
 		s.overflowed = true
